@@ -68,7 +68,7 @@ type badInfo struct {
 type posResult struct {
 	n         [nOutcomes]int // all queries
 	walks     [nOutcomes]int // the iterator walks among them
-	corrupted int // errors of the corruption class
+	corrupted int            // errors of the corruption class
 	otherErr  int
 	openErr   bool
 	bad       *badInfo
